@@ -64,7 +64,7 @@ def one_case(job, variant, step_lines, probe_line):
         r1, r2 = e1.exec(probe), e2.exec(probe)
         if h_engine.norm(json.loads(r1.model_dump_json())) != h_engine.norm(json.loads(r2.model_dump_json())) or r1.hash != r2.hash:
             finding = dict(base, what="a further command gives a different result", probe=probe_line)
-    probs = h_engine.hash_chain_problems(list(e1.operation_logs()))
+    probs = h_engine.hash_chain_problems(list(e1.operation_logs()), live=getattr(e1, "_history", None))
     if probs and finding is None:
         finding = dict(base, what="hash chain: " + "; ".join(probs[:3]))
     return txt, finding, {"plays": rec.plays, "conflicts": rec.conflicts}
